@@ -138,6 +138,35 @@ func init() {
 		st.ghostSet("http_status", nil, code)
 		return &TupleV{[]SVal{Ite(Eq(e, IntLit(0)), r, IntLit(0)), e}}, true
 	})
+	// json.Marshal(&v): the pointer is recorded in the ghost "posted" (what is serialised is not modelled further)
+	reg("encoding/json.Marshal", nil, func(st *State, fr *Frame, call ssa.CallInstruction, a []SVal) (SVal, bool) {
+		if iv, ok := a[0].(*IfaceV); ok {
+			if _, isPtr := iv.Conc.(*types.Pointer); isPtr || iv.Conc != nil {
+				switch p := iv.CVal.(type) {
+				case *Term:
+					st.ghostSet("posted", nil, p)
+				case *AddrV:
+					if p.Path == "" {
+						st.ghostSet("posted", nil, p.Base)
+					}
+				}
+			}
+		}
+		e := st.fresh("jsonerr", SInt)
+		st.assume(And(Ge(e, IntLit(0)), Lt(e, IntLit(900000000))))
+		res := st.freshVal("json", call.Common().Signature().Results().At(0).Type())
+		return &TupleV{[]SVal{res, e}}, true
+	})
+	reg("(*encoding/base64.Encoding).EncodeToString", nil, func(st *State, fr *Frame, call ssa.CallInstruction, a []SVal) (SVal, bool) {
+		sv, ok := a[1].(*SliceV)
+		if !ok {
+			return nil, false
+		}
+		return st.b64(sv), true
+	})
+	reg("(time.Time).Format", nil, func(st *State, fr *Frame, call ssa.CallInstruction, a []SVal) (SVal, bool) {
+		return App(SStr, st.declareFun("spec.time_format", []Sort{SInt, SStr}, SStr), st.scalar(a[0]), st.scalar(a[1])), true
+	})
 	reg("unicode.IsLetter", nil, func(st *State, fr *Frame, call ssa.CallInstruction, a []SVal) (SVal, bool) {
 		return App(SBool, st.declareFun("unicode_isletter", []Sort{SInt}, SBool), st.scalar(a[0])), true
 	})
@@ -299,6 +328,11 @@ func (st *State) strQuote(s *Term) *Term {
 		st.assume(Forall([]*Term{x}, Ge(st.strLen(App(SStr, f, x)), Add(st.strLen(x), IntLit(2))), App(SStr, f, x)))
 	}
 	return App(SStr, f, s)
+}
+
+// b64: standard base64 text of a byte slice, a function of the bytes (identified by backing array, offset, length)
+func (st *State) b64(sv *SliceV) *Term {
+	return App(SStr, st.declareFun("spec.b64", []Sort{SInt, SInt, SInt}, SStr), sv.Base, sv.Off, sv.Len)
 }
 
 func (st *State) reMatches(re, s *Term) *Term {
@@ -559,6 +593,17 @@ func (st *State) specBuiltin(env *Env, e *Expr) (SVal, types.Type, bool) {
 	case "quoted":
 		a, _ := st.elab(env, e.Args[0])
 		return st.strQuote(st.scalar(a)), tString, true
+	case "b64":
+		a, _ := st.elab(env, e.Args[0])
+		sv, ok := a.(*SliceV)
+		if !ok {
+			st.unsupported("b64 needs a byte slice")
+		}
+		return st.b64(sv), tString, true
+	case "timefmt":
+		a, _ := st.elab(env, e.Args[0])
+		b, _ := st.elab(env, e.Args[1])
+		return App(SStr, st.declareFun("spec.time_format", []Sort{SInt, SStr}, SStr), st.scalar(a), st.scalar(b)), tString, true
 	case "fresh_only":
 		// fresh_only("E:uuid.UUID:", ...): in the arrays matching the patterns, every object that existed when the
 		// unit was entered still holds what it held then (only objects allocated since may differ)
